@@ -5,10 +5,11 @@
    last event, partitioned or not), which the engine implements; demanding per-partition negation here would contradict C01. *)
 EXTENDS Naturals, Sequences, TLC, Json
 CONSTANTS MaxLen, NKeys
-Classes == {"count", "slidingcount", "tumbling", "sliding", "session", "aggregate", "seq", "seq_pred", "kleene", "seq3", "count_having"}
+Classes == {"count", "slidingcount", "tumbling", "sliding", "session", "aggregate", "seq", "seq_pred", "kleene", "seq3", "count_having",
+            "api_drop_2_2", "api_oldest_2_2", "api_least_2_3", "api_drop_1_3", "api_oldest_3_2"}   \* SaseEngine with a small run budget per partition
 KeyTypes == {"str", "int", "strnum"}
 VARIABLES cls, kt, stream
-Types(c) == IF c \in {"seq", "seq_pred"} THEN {"A", "B"} ELSE IF c \in {"kleene", "seq3"} THEN {"A", "B", "C"} ELSE {"A"}
+Types(c) == IF c \in {"seq", "seq_pred", "api_drop_2_2", "api_oldest_2_2", "api_oldest_3_2"} THEN {"A", "B"} ELSE IF c \in {"kleene", "seq3", "api_least_2_3", "api_drop_1_3"} THEN {"A", "B", "C"} ELSE {"A"}
 Init == cls \in Classes /\ kt \in KeyTypes /\ stream = <<>>
 Next == /\ Len(stream) < MaxLen
         /\ \E t \in Types(cls), k \in 0..NKeys, x \in 0..2, dt \in {0, 1, 2, 3} : stream' = Append(stream, [type |-> t, k |-> k, x |-> x, dt |-> dt])
